@@ -37,7 +37,7 @@ ASSUMPTIONS = ["frozen positions are 0-based (the convention full_shuffle implem
                "non-termination (N<5, single charge type) is counted as BUDGET",
                "bookkeeping is observed through the API: length, counts, per-residue charge via get_linear_NCPR(1), SCD, carried delta-max via get_deltaMax()",
                "swapRes indices are valid 0-based positions"]
-PROBES = ["frozen_as_tuple", "frozen_as_frozenset", "frozen_as_range", "frozen_nonempty", "frozen_all", "frozen_out_of_range", "frozen_as_list", "cache_warm_before_move", "child_inherits_dmax",
+PROBES = ["default_frozen_argument", "frozen_as_tuple", "frozen_as_frozenset", "frozen_as_range", "frozen_nonempty", "frozen_all", "frozen_out_of_range", "frozen_as_list", "cache_warm_before_move", "child_inherits_dmax",
           "same_seed_twice", "clock_went_back", "returns_self", "block_swap_attempt_99", "block_swap_N_lt_4", "cluster_draw_cap",
           "cluster_named_refusal", "chain_depth_ge_5", "panel_on_child", "permutant_api", "shuffle_api", "swapres_same_index",
           "three_types_sample", "moved_something"]
@@ -83,7 +83,7 @@ def gen_plan(streams, tier):
 
 
 def gen_frozen(rnd, allow_list):
-    spec = rnd.choice(("none", "none", "random", "random", "pos", "neg", "neut", "all", "oor", "half", "charged"))
+    spec = rnd.choice(("none", "default", "default", "random", "random", "pos", "neg", "neut", "all", "oor", "half", "charged"))
     r = rnd.random()
     if allow_list and r < 0.45:
         ft = rnd.choice(("list", "list", "tuple", "frozenset", "range"))
@@ -156,6 +156,11 @@ def corpus():
     mk("frozen_container_types", ["MKEGSTYKEDDRRGSP"], [{"k": kk, "o": 0, "m": "full_shuffle", "fz": "half", "ft": t, "panel": False}
                                                        for t in ("set", "list", "tuple", "frozenset", "range") for kk in ("move", "shuffle_api")] +
        [{"k": "move", "o": 0, "m": "swapRandChargeRes", "fz": "charged", "ft": "frozenset", "panel": False}])
+    mk("default_argument_after_explicit_frozen", ["MKEGSTYKEDDRRGSP"], [
+        {"k": "move", "o": 0, "m": "full_shuffle", "fz": "half", "ft": "set", "panel": False}, {"k": "move", "o": 0, "m": "full_shuffle", "fz": "default", "panel": False},
+        {"k": "shuffle_api", "o": 0, "fz": "all", "ft": "set", "panel": False}, {"k": "shuffle_api", "o": 0, "fz": "default", "panel": False},
+        {"k": "move", "o": 0, "m": "swapRandChargeRes", "fz": "charged", "ft": "set", "panel": False}, {"k": "move", "o": 0, "m": "swapRandChargeRes", "fz": "default", "panel": False},
+        {"k": "move", "o": 0, "m": "permute_block_swap", "fz": "default", "panel": False}, {"k": "move", "o": 0, "m": "permute_cluster_charges", "fz": "default", "panel": False}])
     mk("frozen_charge_swap", ["MKEGSTYKEDDRRGSP"], [{"k": "move", "o": -1, "m": "swapRandChargeRes", "fz": z, "fp": 0.4, "fs": 9, "ft": "set", "panel": False}
                                                      for z in ("random", "pos", "neg", "neut", "all", "charged", "half")])
     mk("warm_cache_chain", ["GKEGKEGKEGKEGSTY"], [{"k": "warm", "o": 0, "how": "kappa"}] +
@@ -361,7 +366,11 @@ def execute(plan, ctx):
                 fz = container(frozen, op.get("ft"))
                 where = "%s(frozen=%s as %s)" % (m, op.get("fz"), type(fz).__name__)
                 cap[0] = 60 * N + 600 if m in ("full_shuffle", "swapRandChargeRes") else 3000
-                child = getattr(parent, m)(fz)
+                if op.get("fz") == "default":
+                    ctx.probe("default_frozen_argument")
+                    child = getattr(parent, m)()          # relies on the (mutable) default argument
+                else:
+                    child = getattr(parent, m)(fz)
             elif k == "swapres":
                 a = int(op["i"] * N) % N
                 b = a if op.get("j") is None else int(op["j"] * N) % N
@@ -377,7 +386,11 @@ def execute(plan, ctx):
                 key_site = "get_shuffled_sequence"
                 cap[0] = 60 * N + 600
                 ctx.probe("shuffle_api")
-                child = wrap(parent).get_shuffled_sequence(fz).SeqObj
+                if op.get("fz") == "default":
+                    ctx.probe("default_frozen_argument")
+                    child = wrap(parent).get_shuffled_sequence().SeqObj
+                else:
+                    child = wrap(parent).get_shuffled_sequence(fz).SeqObj
             elif k == "permutant":
                 where = "SequencePermutants.get_permutant()"
                 key_site = "get_permutant"
